@@ -33,7 +33,8 @@ CLAIMS = {
                 "selected with the destination's mask; the three angle masks cover all events and are disjoint as "
                 "required, with the table's first beta node / the float32-eps constant as clamps; no table look-up "
                 "disables its bounds check; interpolation coordinates follow the table's axis roles; the result is "
-                "z*10**log_e_nu; the sampler returns the iterator's allocated operand; the row-wise inversion has "
+                "z*10**log_e_nu; the sampler returns the iterator's output operand (allocated by it or supplied, never a chunk) and "
+                "a supplied result array has a floating element type that does not come from the energy argument; the row-wise inversion has "
                 "complementary bracket masks, paired (x0,y0)/(x1,y1) and the linear formula; the CDF table of a Taus object "
                 "is the file of ITS configured table version, also when another object was constructed before it in "
                 "the same process (two-construction history: state kept between constructions must be keyed on the "
@@ -80,7 +81,9 @@ CLAIMS = {
                 "of the shower model (Greisen profile and age, Hillas track length / angular scale, Cherenkov threshold "
                 "and angle, yield product) and the validity filter in polynomial normal form against referenced "
                 "formulas; the atmosphere parameterisations (grammage, density = -1e-5 dX/dz, ozone column) cell by "
-                "cell over the altitude bands; the ring limit floor(D tan theta_c) + 1 of the angular integration. It does "
+                "cell over the altitude bands; the ring limit floor(D tan theta_c) + 1 of the angular integration; the assembly "
+                "of the two results (ring sized at the step of the largest particle number, density = 0.5 S / ring area x "
+                "squared distance ratio, angle = photon-weighted mean + spread in degrees). It does "
                 "NOT decide the 10 % / 0.5 % / 1 % agreement with a double-precision evaluation or finiteness.",
         "technique": "numerical-stability lint and structural obligations on the value-flow graph of the kernel "
                      "closure (pattern rules over resolved calls, effect-free), cross-check against the C++ signature",
@@ -216,7 +219,10 @@ CLAIMS = {
                 "exists in the writer's key set for every union variant that can reach the read (guards on the "
                 "variant id are interpreted against the schema's literal ids); every value is read from the key that "
                 "is its own path (31 leaves); each spectrum variant is rebuilt completely; the final CLI write and the "
-                "staged writes use fits/overwrite=True and the reader opens HDU 1. It does NOT decide bit-for-bit "
+                "staged writes (found as file-output effects below the evaluated run command) use fits/overwrite=True and the "
+                "reader opens HDU 1; the table compute() returns on every path, and every table written, was created by "
+                "results_table.init from the very configuration object the run command loaded, overrode and passed to "
+                "compute(). It does NOT decide bit-for-bit "
                 "column round trip or header value fidelity (astropy FITS I/O).",
         "technique": "writer key set derived from the pydantic class definitions, reader leaves and guards from the "
                      "value-flow graph of config_from_fits, set comparison per union variant",
